@@ -5,22 +5,22 @@ import json, subprocess
 CHECKS = {
  "C02": dict(engine="memrace", category="exploration", design="§5 C02",
    text="memrace: generated programs (2-4 threads x 1-5 ops: insert / remove / get / contains / touch / get_or_fetch / clear / resize / evict_all / drop or re-read a held handle; 2-3 keys biased to one key, capacities 1-6, shards 1-4 with an identity hasher so keys share and span shards, five algorithms) run on real OS threads against one Cache. (sched) the harness owns the schedule: foyer (feature verif) calls a schedule point before every shard critical section and after the last reference of a handle is released; a baton lets exactly one program thread run, so the order of critical sections and unlocked windows is the generated schedule - deterministic and replayable; small programs (2 threads x <= 2 ops, 3 threads x 1 op) are enumerated over every schedule up to a preemption bound of 2 (quick) / 3 (thorough). (free) the same programs on free-running threads with seeded jitter at the same points, 20/100 runs each. Every op is stamped invoke/response from one SeqCst counter; oracle = per-key Wing-Gong linearizability search against a register over {absent} U versions whose reads may miss, plus bit-exact validation of every handle when obtained, on demand, at thread end.",
-   note="sched mode explores orders of critical sections and of the unlocked windows between them, not data races inside a critical section; free mode samples OS interleavings (sound oracle, sampling search). evict_all / resize are modelled as 'may evict' (pinned entries legitimately survive). A get_or_fetch answered by another call may still insert its own fetched value later (its fetch task is no longer synchronised with the caller): modelled as an optional write from the moment the origin produced the value. A hang or a crash of the check process is reported as inconclusive (exit 2).",
+   note="sched mode explores orders of critical sections and of the unlocked windows between them, not data races inside a critical section; free mode samples OS interleavings (sound oracle, sampling search). evict_all / resize are modelled as 'may evict' (pinned entries legitimately survive). A get_or_fetch answered by another call never publishes its own fetched value (fix e4ad855: the fetch task publishes only if its flight is still open, decided inside the shard critical section), so no late write is modelled: a read of such a value has no linearization. A hang or a crash of the check process is reported as inconclusive (exit 2).",
    technique="property-based testing of concurrent programs with a harness-owned schedule (proptest random + bounded-exhaustive schedule enumeration) and free-running stress, per-key linearizability oracle"),
  "C01": dict(engine="hybsim", category="exploration", design="§5 C01, §3.1-3.2",
-   text="hybsim: HybridCache on a simulated device + io engine (feature verif) with all foyer tasks on one harness-driven runtime; the generated history owns the device-io completion order (hold / complete i-th / drain), memory eviction, handle drops, graceful reopen. Versioned self-describing values; oracle = per-key write timeline with linearization windows: a lookup may return a miss or a version that no other write definitely supersedes before the lookup started; values validate bit for bit. 60k (quick) / 1.5M (thorough) random histories over both policies, five algorithms, tombstone on/off, none/zstd/lz4, flushers/reclaimers 1-2, 4-8 blocks, sizes 0 .. per-entry max + 1.",
-   note="Documented carve-outs are modelled, not ignored: shedding limits (cases discarded and counted), placement class fixed per key, no tombstone log => reopen may bring back removed/updated entries, no flush_on_close => reopen may bring back older versions. Two design-level known findings (disk-only entries with a held handle; LRU-pinned entry at close) are tolerated by structural signature. Single OS thread: task interleavings at await points are explored, not data races.",
+   text="hybsim: HybridCache on a simulated device + io engine (feature verif) with all foyer tasks on one harness-driven runtime; the generated history owns the device-io completion order (hold / complete i-th / drain), memory eviction, handle drops, graceful reopen, and a history-driven admission switch (the filter decision can flip between two inserts of a key). Versioned self-describing values; oracle = per-key write timeline with linearization windows: a lookup may return a miss or a version that no other write definitely supersedes before the lookup started; values validate bit for bit. 60k (quick) / 1.5M (thorough) random histories over both policies, five algorithms, tombstone on/off, none/zstd/lz4, flushers/reclaimers 1-2, 4-8 blocks, sizes 0 .. per-entry max + 1.",
+   note="Documented carve-outs are modelled, not ignored: shedding limits (cases discarded and counted), placement class fixed per key, no tombstone log => reopen may bring back removed/updated entries, no flush_on_close => reopen may bring back older versions, a get_or_fetch still unresolved when close() is called is concurrent with the close flush. Two design-level known findings (disk-only entries with a held handle; LRU-pinned entry at close) are tolerated by structural signature. Single OS thread: task interleavings at await points are explored, not data races.",
    technique="model-based property testing on a deterministic simulated device with harness-owned io schedule (proptest random), timeline/linearization oracle"),
  "C05": dict(engine="memsim", category="exploration", design="§5 C05",
    text="Bounded-exhaustive enumeration (all op sequences to depth 3/4 over a 26..29-op alphabet, five algorithms, several capacity/shard grids) plus proptest random histories up to 120/300 ops, judged after every step by an event-driven reference model: usage()==sum of findable weights, entries()==count, every eviction necessary, bound re-established unless all others pinned / new entry oversize, clear()=>0, shard capacities sum to capacity (capdist, exhaustive over capacity 0..12 x shards 1..6 x resize). Exploration, exhaustive for small bounds: the right level for an all-sequences arithmetic invariant with an exact oracle.",
    note="Single-threaded histories (every step quiescent). Victim choice is learned from listener events (validated by contains/usage), not predicted; capacity() getter after resize not asserted.",
    technique="model-based property testing (bounded-exhaustive + proptest random) against a reference accounting model"),
  "C13": dict(engine="memsim", category="exploration", design="§5 C13",
-   text="Same histories with a recording EventListener and a recording Pipe; conservation oracle: each admitted entry id gets exactly one on_leave whose reason the operation permits, never while still findable, and pipe offers equal the Evict-reason ids (plus disk-only entries at last handle drop) exactly once; epilogue drops handles, then the cache (Clear for all residents).",
+   text="Same histories with a recording EventListener and (in 3 of 4 random cases and one of two exhaustive resize grids) a recording Pipe; conservation oracle: each admitted entry id gets exactly one on_leave whose reason the operation permits, never while still findable, and pipe offers equal the Evict-reason ids (plus disk-only entries at last handle drop) exactly once; epilogue drops handles, then the cache (Clear for all residents).",
    note="Single-threaded; notification count for filter-rejected (never admitted) entries is not asserted, only their single disk hand-off.",
    technique="model-based property testing (bounded-exhaustive + proptest random), history invariant over listener/pipe events"),
  "C18": dict(engine="memsim", category="exploration", design="§5 C18",
-   text="Same histories focusing on handles: after every step every live handle reads its original key/value/weight, is_outdated() equals the model's 'lookup would not return this entry', LRU never evicts a looked-up-and-held entry; epilogue drops all handles and inserts once per shard: every shard must be within capacity (no leaked pins).",
+   text="Same histories (incl. get_or_fetch hits and misses) focusing on handles: after every step every live handle reads its original key/value/weight, is_outdated() equals the model's 'lookup would not return this entry', LRU never evicts a looked-up-and-held entry; epilogue drops all handles and inserts once per shard: every shard must be within capacity (no leaked pins).",
    note="Single-threaded; the multi-threaded drop/get race on the reference count is not explored here.",
    technique="model-based property testing (bounded-exhaustive + proptest random) with per-handle invariants"),
  "C14": dict(engine="memsim", category="exploration", design="§5 C14, Appendix A",
@@ -32,8 +32,8 @@ CHECKS = {
    note="Memory-only Cache with a harness 'disk lookup' future plugged into get_or_fetch_inner exactly as HybridCache does; tasks run on a harness-driven current-thread runtime (no OS-thread races). Error kind for a cancelled flight may be TaskCancelled or ChannelClosed.",
    technique="model-based property testing with a harness-owned schedule (bounded-exhaustive + proptest random) against a protocol state machine"),
  "C11": dict(engine="fetchsim", category="exploration", design="§5 C11",
-   text="Same engine, alphabet {fetch starts, insert returns, fetch resolves ok/err, lookups, remove, settle}: every caller waiting when insert(k,v) returns must receive v; results of fetches (or disk lookups) that belonged to a flight closed by an explicit insert must never surface in the cache or at a later caller. Exhaustive depth 5/6 x five algorithms + random.",
-   note="The insert has returned before the late result is released (harness owns the order); truly simultaneous insert/resolve on two threads is not explored.",
+   text="Same engine, alphabet {fetch starts, insert returns (plain or disk-only), fetch resolves ok/err, insert completes during the final poll of the origin, lookups, remove, settle}: every caller waiting when insert(k,v) returns must receive v; results of fetches (or disk lookups) that belonged to a flight closed by an explicit insert must never surface in the cache or at a later caller. Exhaustive depth 5/6 x five algorithms + random.",
+   note="The harness owns the order, including 'the insert runs to completion inside the poll in which the origin returns its value' (what a second thread can do at any time, made deterministic); OS-thread races are C02's free mode.",
    technique="model-based property testing with a harness-owned schedule (bounded-exhaustive + proptest random)"),
  "C16": dict(engine="memsim", category="exploration", design="§5 C16",
    text="memsim histories (C05/C13 alphabet plus get_or_fetch with ready / failing / never-resolving origins) on a single-shard Cache, all five algorithms; listener, weighter, memory filter and the Drop of every key and value owned by the cache are harness objects that read the lock probe (hook: shard RwLock or in-flight-table Mutex held => violation; exact on one thread, no timing) and, only if it is clear, perform a generated re-entrant get/contains/insert/remove on the same shard.",
@@ -44,15 +44,15 @@ CHECKS = {
    note="Memory cache and in-flight table only in this round; the hybrid (disk index by hash, write queue, recovery) half is added with hybsim. contains() false positives on the disk tier are allowed by documentation.",
    technique="model-based property testing with an adversarial user-supplied hasher (proptest random)"),
  "C12": dict(engine="hybsim", category="exploration", design="§5 C12",
-   text="hybsim histories with immediate io (every step quiescent) over insert_with_properties (Default/InMem/OnDisk), storage-writer inserts, get / get_or_fetch (memory hit, disk hit, origin), handle drops, evict_all and capacity evictions, load throttling, close, reopen; both policies, flush_on_close on/off, admission filter admit / reject some keys, FifoPicker probation 10/50/100 % plus a wrapping-device sub-run so disk-loaded entries are reported Young and Old. Differential oracle: the (key, version) set newly present in device data writes of each step (attributed by an independent format reader) must equal a write-expectation model of policy and advice.",
+   text="hybsim histories with immediate io (every step quiescent) over insert_with_properties (Default/InMem/OnDisk), storage-writer inserts, get / get_or_fetch (memory hit, disk hit, origin), handle drops, evict_all and capacity evictions, load throttling, close, reopen; both policies, flush_on_close on/off, admission filter admit / reject some keys, FifoPicker probation 10/50/100 % plus a wrapping-device sub-run under both policies so disk-loaded entries are reported Young and Old. Differential oracle: the (key, version) set newly present in device data writes of each step (attributed by an independent format reader) must equal a write-expectation model of policy and advice.",
    note="What close must persist is C15's claim; here close writes are only checked for what must NOT be written. The Young/Old age is read from the entry foyer returns. Values >= 25 bytes so every written entry is attributable.",
    technique="differential property testing against a write-expectation model on a simulated device (proptest random)"),
  "C15": dict(engine="hybsim", category="exploration", design="§5 C15",
-   text="hybsim histories ending in: snapshot of the memory tier, close(), up to 4 ops on the closed cache (inserts, removes, second close, lookups), reopen, get of every key; variants: drop without close, and 'process dies the instant close() returns' (held io; only device writes completed by then survive). Oracle: close resolves with Ok (twice), no device write after close returned, flush_on_close=false writes no entry data, every non-InMem resident entry hits with exactly its version after reopen (miss = violation), InMem residents miss. Hangs by quiescence.",
-   note="Provisos enforced by construction and verified from the write log: resident set fits the flush buffer, no block reclaimed; entries that cannot be written at all are outside the claim. One known finding (LRU-pinned entry at close) tolerated by structural signature.",
+   text="hybsim histories ending in: snapshot of the memory tier, close(), up to 4 ops on the closed cache (inserts, removes, second close, lookups), reopen, get of every key; variants: drop without close, 'process dies the instant close() returns' (held io; only device writes completed by then survive), and a tight flush buffer with a backlog (held io: backlog + resident set exceed the buffer, each alone fits). Oracle: close resolves with Ok (twice), no device write after close returned, flush_on_close=false writes no entry data, every non-InMem resident entry hits with exactly its version after reopen (miss = violation), InMem residents miss. Hangs by quiescence.",
+   note="Provisos enforced by construction and verified from the write log: the page-aligned resident set fits one flusher's buffer (shedding that first happens during close is excused only otherwise), no block reclaimed; entries that cannot be written at all are outside the claim. One known finding (LRU-pinned entry at close) tolerated by structural signature.",
    technique="model-based property testing on a deterministic simulated device incl. crash-at-return (proptest random)"),
  "C10": dict(engine="hybsim", category="exploration", design="§5 C10",
-   text="Macro-op histories on HybridCache (simulated device, tombstone log on, both policies, 1-2 flushers): insert n keys, delete the n oldest live keys / n never-inserted keys with n from {1..6, 255, 256, 257, 300, 511, 512, 513, 100..700}, re-insert recently deleted keys, wait, graceful reopen, crash right after an acknowledged wait; tombstones bounded by the log capacity, device sized so nothing is reclaimed (verified from the write log). After every reopen and a final one: every deleted-and-not-reinserted key misses, every live key hits with its exact version.",
+   text="Macro-op histories on HybridCache (simulated device, tombstone log on, both policies, 1-2 flushers): insert n keys, delete the n oldest live keys / n never-inserted keys / keys whose insert is still queued (delete races the insert in the flusher queue) with n from {1..6, 255, 256, 257, 300, 511, 512, 513, 100..700}, re-insert recently deleted keys, wait, graceful reopen, crash right after an acknowledged wait; tombstones bounded by the log capacity, device sized so nothing is reclaimed (verified from the write log). After every reopen and a final one: every deleted-and-not-reinserted key misses, every live key hits with its exact version.",
    note="Identity hasher (no collisions). Log wrap-around (more tombstones than device pages) is outside the statement and not generated.",
    technique="model-based property testing with restart cycles on a simulated device (proptest random)"),
  "C04": dict(engine="hybsim", category="fault_enumeration", design="§5 C04",
@@ -60,20 +60,20 @@ CHECKS = {
    note="Blob index is one page (default), so a page-granular tear cannot split an index rewrite. The device applies a completed write atomically and loses in-flight writes; completed writes are never reordered. 'Acknowledged' = a wait() issued after the op was handed to the disk tier has resolved.",
    technique="crash-point and torn-write enumeration over generated workloads on a simulated device (proptest-generated workloads, enumerated faults)"),
  "C03": dict(engine="hybsim", category="fault_enumeration", design="§5 C03",
-   text="Generated workloads (1-3 page and tiny values, overwrites, deletes, none/zstd/lz4, tombstone log on/off, 4-8 blocks so most workloads wrap the device) produce device images; faults are enumerated for every page of the image incl. the tombstone log: zero page, all-ones page, two bit flips (one inside the first 64 bytes = header/checksum/count fields), swap within the block, swap across partitions and with the first tombstone page, older generations of the same page; plus generated multi-fault sets. Every fault is served to the running store (live index, load path) and applied to an image that is reopened in quiet mode; then every key is read. Oracle: no panic (catch_unwind), each read is a miss, an error or bit-exactly a version really inserted for that key.",
-   note="A 64-bit xxhash collision is not searched for. A process abort (allocation failure) cannot be caught in-process: it would surface as a broken (aborted) check run, which is how the Vec::with_capacity abort was found. Byte-level mutation of single entries / blob indexes is the fuzz targets' job.",
-   technique="fault enumeration over device images produced by generated workloads (proptest workloads, enumerated per-page faults, explicit validity oracle)"),
+   text="Generated workloads (1-3 page and tiny values, overwrites, deletes, none/zstd/lz4, tombstone log on/off, 4-8 blocks so most workloads wrap the device) produce device images; faults are enumerated for every page of the image incl. the tombstone log: zero page, all-ones page, two bit flips (one inside the first 64 bytes = header/checksum/count fields), swap within the block, swap across partitions and with the first tombstone page, older generations of the same page; plus generated multi-fault sets. Every fault is served to the running store (live index, load path) and applied to an image that is reopened in quiet mode; then every key is read. Oracle: no panic - caught by catch_unwind or swallowed by the runtime and surfaced to the caller as an error - each read is a miss, an error or bit-exactly a version really inserted for that key.",
+   note="A 64-bit xxhash collision is not searched for. A process abort (allocation failure) cannot be caught in-process: it would surface as a broken (aborted) check run, which is how the Vec::with_capacity abort was found. Byte level: the committed seed inputs of the cargo-fuzz targets fmt_entry, fmt_entry_struct, fmt_blob_index are replayed in-process (quick); thorough runs the coverage-guided campaigns (fmt_entry_struct 2M, fmt_blob_index 10M executions; in-target oracle: accepted => checksummed bytes verified).",
+   technique="fault enumeration over device images produced by generated workloads (proptest workloads, enumerated per-page faults, explicit validity oracle) + coverage-guided fuzzing of the format readers (cargo-fuzz/libFuzzer) in the thorough tier"),
  "C07": dict(engine="hybsim+fmt", category="exploration", design="§5 C07",
-   text="(splitter) generated block sizes, blob-index sizes and sequences of batches of entry lengths (boundary values, runs of 169/170/171/340/341 small entries) drive Buffer + Splitter::split with a persistent SplitCtx; invariants on every blob part and on a virtual device replayed from the parts and walked by an independent format reader (scan == written, disjoint regions, payload at recorded position). (end to end) hybsim histories whose batch boundaries are chosen by holding io, with sizes that fill the current block exactly / by one page more, runs that fill blob indexes, deletes, reuse after reclaim and graceful reopen; at every quiescent point: independent parse of every block (geometry, index == header, checksum), every key the disk tier claims loads and equals the entry the scan reconstructs as newest for its hash, and after a graceful reopen recovery == scan and nothing loadable is lost.",
+   text="(splitter) generated block sizes, blob-index sizes and sequences of batches of entry lengths (boundary values, runs of 169/170/171/340/341 small entries) drive Buffer + Splitter::split with a persistent SplitCtx; invariants on every blob part and on a virtual device replayed from the parts and walked by an independent format reader (scan == written, disjoint regions, payload at recorded position). (end to end) hybsim histories whose batch boundaries are chosen by holding io, with sizes that fill the current block exactly / by one page more, runs that fill blob indexes, deletes, reuse after reclaim and graceful reopen; at every quiescent point: independent parse of every block (geometry, index == header, checksum), every key the disk tier claims loads and equals the entry the scan reconstructs as newest for its hash, and after a graceful reopen recovery == scan and nothing loadable is lost; crash cut-offs inside a batch: after each completed device write of the batch a copy of the device is reopened and every key the reopened tier claims must load. Seed inputs of the cargo-fuzz target `splitter` replayed in quick, 400k-execution campaign in thorough.",
    note="Identity hasher; compression off in the end-to-end part. Staleness relative to the insert history is C01's claim and not asserted here. A runaway loop / allocation inside the splitter ends the run as inconclusive (exit 2) through run.sh's supervision.",
    technique="property-based testing with an independent format reader as oracle (proptest random): direct splitter harness + end-to-end on the simulated device"),
  "C08": dict(engine="fmt", category="exploration", design="§5 C08",
-   text="(code) every built-in Code type (14 numeric types at MIN/MAX/0/1/random, floats by bit pattern incl. NaN payloads, bool, String, Vec<u8>, Bytes with lengths concentrated at page boundaries): decode(encode(x)) == x bitwise, no trailing bytes, every too-small destination => size-limit error. (ser) EntrySerializer/EntryDeserializer + Buffer::push headers for five key/value type pairs under none/zstd/lz4: KvInfo lengths == bytes written (independent counting writer), round trip, every cut-off of the destination is a size-limit error and never Ok, header fields == actual lengths, independent format reader agrees. (mut) valid entries / blob indexes damaged by byte edits and truncation are accepted only if the checksummed bytes are intact and decode to the originals. (tier) on hybsim, values at the per-entry limit -5000..+600 bytes under each codec: accepted => loads bit-exactly and found intact on the device by the independent reader, rejected => absent as a whole. (serde) the code + ser parts again in a second binary built with the `serde` feature (blanket bincode impl). Thorough additionally runs coverage-guided libFuzzer targets over the same oracles.",
+   text="(code) every built-in Code type (14 numeric types at MIN/MAX/0/1/random, floats by bit pattern incl. NaN payloads, bool, String, Vec<u8>, Bytes with lengths concentrated at page boundaries): decode(encode(x)) == x bitwise, no trailing bytes, every too-small destination => size-limit error. (ser) EntrySerializer/EntryDeserializer + Buffer::push headers for five key/value type pairs under none/zstd/lz4: KvInfo lengths == bytes written (independent counting writer), round trip, every cut-off of the destination is a size-limit error and never Ok, header fields == actual lengths, independent format reader agrees. (mut) valid entries / blob indexes damaged by byte edits and truncation are accepted only if the checksummed bytes are intact and decode to the originals. (tier) on hybsim, values at the per-entry limit -5000..+600 bytes under each codec: accepted => loads bit-exactly and found intact on the device by the independent reader, rejected => absent as a whole. (serde) the code + ser parts again in a second binary built with the `serde` feature (blanket bincode impl). Two entries in one flush buffer (position of the second, first one intact). Seed inputs of the cargo-fuzz targets replayed in-process (quick); thorough runs libFuzzer campaigns: code_roundtrip 20M, fmt_entry 20M, ser_roundtrip 60k executions (ASan, debug assertions).",
    note="Storable types are the built-in Code impls plus (serde build) the same types through bincode; user-defined Code impls are outside the statement. The cut-off oracle covers the `&mut [u8]` destination the flusher uses.",
    technique="property-based testing (proptest random with boundary-biased generators): round-trip, cut-off enumeration, byte-mutation with an independent format reader; thorough adds coverage-guided fuzzing (cargo-fuzz/libFuzzer) of the same in-target oracles"),
  "C09": dict(engine="hybsim", category="exploration", design="§5 C09",
-   text="Sustained workloads of several device capacities (mixed sizes, overwrites, deletes, bursts) on devices of 4-12 blocks x 16-64 KiB, flushers 1-3, reclaimers 1-2, thresholds inside the engine's no-warning domain, reinsertion filter none/some keys, flush buffer 1-2 blocks per flusher (and an oversized class); io held and completed in a generated order that includes reclaim reads and clean writes. Log invariants from the simulated device's logical clock: no overlapping in-flight writes, data ranges of a block epoch disjoint, index rewrites never touch entry data, no clean while a write to the block is in flight and vice versa. At quiescent points every key is intact (current version) or absent; wait() at generated points resolves under every generated completion order (quiescence = stall); reinsertion-filter keys whose latest version was flushed still hit after their block's reclaim.",
-   note="The 'oldest-filled first' sub-claim is NOT decided: an executable notion of 'filled' that is robust to multi-block batches under held io could not be stated without alarms on the unchanged tree (see DESIGN.md §C09). One known finding (stale entry when a batch spans >= 3 blocks, i.e. flush buffer > 2 blocks) is tolerated by structural signature. Single OS thread.",
+   text="Sustained workloads of several device capacities (mixed sizes, overwrites, deletes, bursts) on devices of 4-12 blocks x 16-64 KiB, flushers 1-3, reclaimers 1-2, thresholds inside the engine's no-warning domain, reinsertion filter none / a small set (<= half a block of one-page entries) / one key whose entries fill a block exactly, flush buffer 1-2 blocks per flusher (and an oversized class), plus a reinsert-focus sub-run (no shedding, reinsertion keys acknowledged first, device wrapped); io held and completed in a generated order that includes reclaim reads and clean writes. Log invariants from the simulated device's logical clock: no overlapping in-flight writes, data ranges of a block epoch disjoint, index rewrites never touch entry data, no clean while a write to the block is in flight and vice versa. At quiescent points every key is intact (current version) or absent; wait() at generated points resolves under every generated completion order (quiescence = stall); reinsertion-filter keys whose latest version was flushed still hit after their block's reclaim.",
+   note="The 'oldest-filled first' sub-claim is NOT decided: an executable notion of 'filled' that is robust to multi-block batches under held io could not be stated without alarms on the unchanged tree (see DESIGN.md §C09). One known finding (stale entry when the older version's block write of a multi-block batch is issued after / still unfinished when a newer version's block write is issued; identified from the device log) is tolerated by structural signature. The reinsertion working set is kept inside the domain in which progress is possible at all (a set that needs as many blocks as the device can spare is rewritten forever by construction). Single OS thread.",
    technique="property-based testing on a simulated device with generated io completion order (proptest random), io-log invariants + model oracle + quiescence-based liveness"),
 }
 
